@@ -6,7 +6,7 @@ META = dict(
     engine='seqx',
     technique='exhaustive enumeration of a box of vpmap specifications (flat, hwloc, rr:n:p:c grid, generated map files, malformed strings/files) x synthetic hwloc topologies, one real parsec_init per child process, compared with a specification model',
     level_text='Every specification of the box (flat forms, hwloc, rr:n:p:c for n,p,c in 0..4 plus malformed rr strings, map files of 1-3 lines built from core lists / hex masks / range expressions / rank prefixes / malformed lines) is run through the real parsec_init on HWLOC_SYNTHETIC topologies with 1,2,4,6,8 cores; the number of virtual processes, the threads per virtual process (context and parsec_vpmap_get_* agree), every thread affinity and bound core within the allowed cpuset (and within the cores the line names), normal exit of parsec_fini, and for malformed input: no signal and a valid fallback map.',
-    level_note='Topologies are synthetic (hwloc does not bind real threads); single process (rank 0); quick tier: topologies 1,4,6 cores, rr grid 0..3, one- and two-line files; thorough: all 5 topologies, rr grid 0..4, up to three-line files, explicit core counts.',
+    level_note='Topologies are synthetic (hwloc does not bind real threads); single process (rank 0); quick tier: every family on the 4-core/2-package topology, single-line files / invalid bindings / flat / hwloc also on 1 and 6 cores, two-line files on 6 cores, rr grid 0..2 (303 cases); thorough: all 5 topologies, rr grid 0..4, up to three-line files, nb_cores in {-1,2} (5180 cases).',
 )
 RULE = ("full-box enumeration, one process per (specification, topology, requested cores); states = distinct resulting maps (vp/thread/affinity structure); "
         "non-trivial = the specification asks for something other than the default flat map")
@@ -41,51 +41,55 @@ def expand_binding(b, real):
 
 
 def cases(tier):
+    """quick: every family on the 4-core (2 packages) topology; single-line files, invalid bindings, flat and hwloc also on 1 and 6
+    cores; two-line files on 6 cores; rr grid 0..2. thorough: everything on all five topologies, rr grid 0..4, nb_cores in {-1,2}."""
     quick = tier == 'quick'
-    topos = [1, 4, 6] if quick else [1, 2, 4, 6, 8]
-    out = []   # (name, spec, filetext, expectation)
+    ALL = [1, 4, 6] if quick else [1, 2, 4, 6, 8]
+    ONE = [4] if quick else ALL
+    SIX = [6] if quick else ALL
+    out = []
 
-    def add(name, spec, filetext, exp):
+    def add(name, spec, filetext, exp, topos):
         for t in topos:
             for req in ([-1] if quick else [-1, 2]):
                 out.append(dict(name=name, spec=spec, file=filetext, exp=exp, topo=t, req=req))
     for s in ['@null', 'flat', 'display:flat', '']:
-        add('flat', s, None, dict(kind='flat'))
-    add('hwloc', 'hwloc', None, dict(kind='hwloc'))
-    add('hwloc', 'display:hwloc', None, dict(kind='hwloc'))
-    g = range(0, 4) if quick else range(0, 5)
+        add('flat', s, None, dict(kind='flat'), ALL if s in ('@null', 'flat') else ONE)
+    add('hwloc', 'hwloc', None, dict(kind='hwloc'), ALL)
+    add('hwloc', 'display:hwloc', None, dict(kind='hwloc'), [4, 6] if quick else ALL)
+    g = range(0, 3) if quick else range(0, 5)
     for n, p, c in itertools.product(g, g, g):
         ok = n >= 1 and p >= 1 and c >= 1
-        add('rr', 'rr:%d:%d:%d' % (n, p, c), None, dict(kind='rr', n=n, p=p, c=c) if ok else dict(kind='reject'))
+        add('rr', 'rr:%d:%d:%d' % (n, p, c), None, dict(kind='rr', n=n, p=p, c=c) if ok else dict(kind='reject'), ONE)
     for s in ['rr:', 'rr:2', 'rr:2:2', 'rr:a:b:c', 'rr:2:x:2', 'rr:-1:2:2', 'rr:2:-2:2', 'rr:2:2:-4', 'rr:2:2:4junk', 'rr::2:2', 'rr:2:2:', 'rr:99999999999:1:1',
               'bogus', 'flatx', 'file:', 'file:/nonexistent/vpmap', 'display', 'display:', 'display:bogus', ':', 'hwlocfoo']:
-        add('malformed-string', s, None, dict(kind='reject'))
+        add('malformed-string', s, None, dict(kind='reject'), ONE)
     # map files
     lines_ok = []
     for b in BINDINGS:
         for nth in (1, 2, 3):
             lines_ok.append((':%d:%s' % (nth, b), nth, b))
     for (l, nth, b) in lines_ok:
-        add('file1', 'file:@F', l + '\n', dict(kind='file', vps=[(nth, b)]))
+        add('file1', 'file:@F', l + '\n', dict(kind='file', vps=[(nth, b)]), ALL)
     for (l, nth, b) in lines_ok[::5]:
-        add('file1-rank0', 'file:@F', '0' + l + '\n', dict(kind='file', vps=[(nth, b)]))
-        add('file1-otherrank', 'file:@F', '1' + l + '\n', dict(kind='reject'))           # nothing for this process: falls back
-        add('file1-nonewline', 'file:@F', l, dict(kind='file', vps=[(nth, b)]))
-        add('file1-nobinding', 'file:@F', ':%d\n' % nth, dict(kind='file', vps=[(nth, None)]))
+        add('file1-rank0', 'file:@F', '0' + l + '\n', dict(kind='file', vps=[(nth, b)]), ONE)
+        add('file1-otherrank', 'file:@F', '1' + l + '\n', dict(kind='reject'), ONE)           # nothing for this process: falls back
+        add('file1-nonewline', 'file:@F', l, dict(kind='file', vps=[(nth, b)]), ONE)
+        add('file1-nobinding', 'file:@F', ':%d\n' % nth, dict(kind='file', vps=[(nth, None)]), ONE)
     two = lines_ok[::4] if quick else lines_ok[::2]
     for i, (l1, n1, b1) in enumerate(two):
         for (l2, n2, b2) in two[i % 3::3]:
-            add('file2', 'file:@F', l1 + '\n' + l2 + '\n', dict(kind='file', vps=[(n1, b1), (n2, b2)]))
-            add('file2-mixed', 'file:@F', '0' + l1 + '\n1:4:0\n' + l2 + '\n', dict(kind='file', vps=[(n1, b1), (n2, b2)]))
+            add('file2', 'file:@F', l1 + '\n' + l2 + '\n', dict(kind='file', vps=[(n1, b1), (n2, b2)]), SIX)
+            add('file2-mixed', 'file:@F', '0' + l1 + '\n1:4:0\n' + l2 + '\n', dict(kind='file', vps=[(n1, b1), (n2, b2)]), SIX)
     if not quick:
         three = lines_ok[::7]
         for (l1, n1, b1), (l2, n2, b2), (l3, n3, b3) in itertools.product(three, three[::2], three[1::2]):
-            add('file3', 'file:@F', '\n'.join([l1, l2, l3]) + '\n', dict(kind='file', vps=[(n1, b1), (n2, b2), (n3, b3)]))
+            add('file3', 'file:@F', '\n'.join([l1, l2, l3]) + '\n', dict(kind='file', vps=[(n1, b1), (n2, b2), (n3, b3)]), ALL)
     for b in BAD_BINDINGS:
-        add('file-badbinding', 'file:@F', ':2:%s\n' % b, dict(kind='reject-file', nth=2))
+        add('file-badbinding', 'file:@F', ':2:%s\n' % b, dict(kind='reject-file', nth=2), ALL)
     for txt in ['', '\n', 'garbage\n', 'no colon here\n:1:0\n', '::\n', ':x:0\n', ':-3:0\n', ':0:0\n', ':2.7:0\n', ':::\n', '\x01\x02\xff\n', ':1:0\n\n\n', '\n:1:0\n', ':1:0\ngarbage',
                 ':2:0,1:extra\n', '0x:1:0\n', ' :1:0\n', ':' + '9' * 30 + ':0\n']:
-        add('file-malformed', 'file:@F', txt, dict(kind='reject'))
+        add('file-malformed', 'file:@F', txt, dict(kind='reject'), ONE)
     return out
 
 
@@ -227,7 +231,14 @@ def check(ctx):
                 return None
             return run_case(exe, allc[i], tmpdir, i)
         # interleave the kinds so that a deadline-cut prefix still covers every family
-        order = sorted(range(len(allc)), key=lambda i: (i % 37, i))
+        fam = {}
+        for i, c in enumerate(allc):
+            fam.setdefault(c['name'], []).append(i)
+        rank = {}
+        for name, idxs in fam.items():
+            for k, i in enumerate(idxs):
+                rank[i] = (k * 1000) // len(idxs)      # position of the case inside its family, scaled: families advance in lock-step
+        order = sorted(range(len(allc)), key=lambda i: (rank[i], len(fam[allc[i]['name']]), i))
         with ThreadPoolExecutor(max_workers=16) as ex:
             results = list(ex.map(work, order))
         done = 0
